@@ -43,6 +43,7 @@ Monitors (direct statements of the properties on the real objects, independent o
 """
 import collections
 import json
+import random
 import sys
 
 import mock
@@ -206,7 +207,10 @@ def gen_case(rng, pid, tier):
         elif r < 0.37:
             ops.append(['rmapp', rng.randint(1, napps[0])])
         elif r < 0.40:
-            ops.append(['finish', rng.randint(1, napps[0])])
+            # (side stream) one exit report in four is a stale one: a node that lost the instance to another
+            # server replays its queued exit event - /finished/<instance> is written, the instance stays scheduled
+            r2 = random.Random(repr(rng.getstate()[1][:4]))
+            ops.append(['stalefin' if r2.random() < 0.25 else 'finish', rng.randint(1, napps[0])])
         elif r < 0.54:
             ops.append(['presence', pick_srv(), rng.random() < 0.5])
         elif r < 0.63:
@@ -252,6 +256,15 @@ def gen_case(rng, pid, tier):
             # re-evaluation event; sometimes for an instance deleted from /scheduled whose children watch has
             # not fired yet (the events watch is served first)
             ops.append(['appsev', rng.randint(1, napps[0]), rng.choice([0, 1, 50, 100, -1]), rng.random() < 0.3])
+            # (side stream) now and then the rewritten manifest also regroups the instance under another affinity:
+            # a running master keeps what it loaded first, its successor loads what is stored
+            r2 = random.Random(repr(rng.getstate()[1][:4]))
+            # (only for the scheduler-level properties: the restart properties C09-C11 quantify over stored states
+            # that histories of events and cycles produce, and no event rewrites an instance's affinity - the
+            # stored manifests would contradict the stored placement)
+            if r2.random() < 0.25 and not ops[-1][3] and pid in SCHED_PIDS:
+                p2, k2 = r2.randint(1, 2), r2.randint(0, 1)
+                ops[-1] = ops[-1] + [[p2, k2, limits[(p2, k2)], (p2, k2) == noaff_group]]
         elif r < 0.895:
             ops.append(['tick', rng.choice([1, 5, 29, 31, 40, 200, 301])])
         elif r < 0.903 and napps[0]:
@@ -350,6 +363,7 @@ class World(object):
         self.zkbackend = zkbackend
         self.run = run
         self.pid = pid
+        self.aff_decl = {}
         self.now = T0
         self.store = fz.Store(lambda: self.now * 1000)
         self.admin = fz.Client(self.store)
@@ -1423,14 +1437,18 @@ def monitor_c09(w, when):
         del w.origin[key]
 
 
-def fresh_start(w, store, upto, t):
-    """A newly elected master on `store` at time t: returns (master, error, stage)."""
+def fresh_start(w, store, upto, t, fail_read=None):
+    """A newly elected master on `store` at time t: returns (master, error, stage).
+    `fail_read`: its read with that index fails once with a lost connection."""
     saved = (w.now, w.enabled)
     w.enabled = False
     w.now = t
     store.clock = lambda: t * 1000
     try:
         m2, _zk = w.new_master(store, record=False)
+        _zk.reads = 0
+        _zk.fail_read_at = fail_read
+        w.last_probe_zk = _zk
         stage = 'load_model'
         try:
             m2.load_model()
@@ -1710,6 +1728,13 @@ def _start_master(w):
     w.run.op('newmaster %d %d' % (ROOT, LEVELS['cell']), None)
     w.run.op('tick %d' % w.now, None)
     w.m.load_model()
+    # the affinity an instance declares, as far as this master is concerned: what its stored manifest says now
+    w.aff_decl = {}
+    for an_ in w.store.children('/scheduled'):
+        try:
+            w.aff_decl[an_] = (json.loads(w.store.nodes['/scheduled/' + an_].data.decode()) or {}).get('affinity')
+        except ValueError:
+            pass
     _sync(w)
     w.m.init_schedule()
     w.last_sched = w.store.children('/scheduled')
@@ -1775,8 +1800,14 @@ class _SchedView(object):
             return own, off
         self.trait_names = trait_names
 
+        aff_decl = dict(getattr(w, 'aff_decl', {}))
+
         def affinity_of(app_):
-            """The affinity the stored manifest declares (instances without one share the unnamed affinity)."""
+            """The affinity the instance declared when it was scheduled / when this master started (a manifest
+            rewritten later does not regroup an instance the master already knows); instances without one
+            share the unnamed affinity."""
+            if app_.name in aff_decl:
+                return aff_decl[app_.name]
             man = store.nodes.get('/scheduled/' + app_.name)
             if man is None or not man.data:
                 return app_.affinity.name          # no stored manifest (any more): nothing to compare with
@@ -1943,11 +1974,46 @@ def _guarded(w, what, fn):
         monitor_c10(w, snap, log, stale, what, sites)
 
 
+def _read_fault_probe(w):
+    """C11 under a transient read error: a master whose connection is lost during one read of its start-up
+    either dies there (its successor starts over) or has loaded exactly what a master without the error loads.
+    Both probes run on copies of the store."""
+    t = w.now
+    ref, err, _st = fresh_start(w, w.store.clone(), 'load', t)
+    if err is not None:
+        return
+    nreads = w.last_probe_zk.reads
+    if not nreads:
+        return
+    k = (w.stats['restart'] * 7919 + int(t) * 31) % nreads
+    m2, err2, _st = fresh_start(w, w.store.clone(), 'load', t, fail_read=k)
+    w.stats['c11-read-fault'] += 1
+    if err2 is not None:
+        w.stats['c11-read-fault-died'] += 1
+        return
+    if not w.last_probe_zk.read_fault_fired:
+        return
+
+    def loaded(m_):
+        return (sorted(m_.servers), sorted((an, a_.server, a_.identity, a_.placement_expiry)
+                                           for an, a_ in m_.cell.apps.items()))
+    a, b = loaded(ref), loaded(m2)
+    if a != b:
+        _hit(w.run, 'read-error-changes-load', 'Master.load_model',
+             'read #%d of %d failed with ConnectionLoss, start-up went on and loaded %r; without the error: %r' % (
+                 k, nreads, [x for x in b[1] if x not in a[1]] + [s_ for s_ in b[0] if s_ not in a[0]],
+                 [x for x in a[1] if x not in b[1]] + [s_ for s_ in a[0] if s_ not in b[0]]))
+    else:
+        w.stats['c11-read-fault-harmless'] += 1
+
+
 def _restart(w, pid, when):
     """New master on the same store: load_model + init_schedule, then its first cycle."""
     w.stats['restart'] += 1
     w.now += 3
     w.enabled = False
+    if pid == 'C11':
+        _read_fault_probe(w)
     _guarded(w, 'restart', lambda: _start_master(w))
     _guarded(w, 'first-cycle', lambda: _cycle(w, pid))
     _after_cycle(w, pid, when)
@@ -2064,19 +2130,24 @@ def _apply(case, pid, run, w, op):
         w.now += 1                      # distinct creation order
         run.op('tick %d' % w.now, None)
         w.zput('/scheduled/' + name, man)
+        w.aff_decl[name] = man.get('affinity')
         _env(w, 'zsched %d 1' % aid_of(name))
         guarded('event:scheduled', lambda: _deliver_scheduled(w))
-    elif k in ('rmapp', 'finish'):
+    elif k in ('rmapp', 'finish', 'stalefin'):
         name = w.apps_n.get(op[1])
         if name is None or '/scheduled/' + name not in w.store.nodes:
             return
-        if k == 'finish':
+        if k in ('finish', 'stalefin'):
             a = w.m.cell.apps.get(name)
             host = a.server if a is not None else None
             if host is None or '/finished/' + name in w.store.nodes:
                 return
             w.zput('/finished/' + name, {'state': 'finished', 'when': w.now, 'host': host, 'data': '0.0'})
             _env(w, 'zfin %d %d %d' % (aid_of(name), sid_of(host), w.now))
+        if k == 'stalefin':
+            w.stats['stale-finished-record'] += 1
+            _sync(w)
+            return
         w.zdel('/scheduled/' + name)
         _env(w, 'zsched %d 0' % aid_of(name))
         guarded('event:scheduled', lambda: _deliver_scheduled(w))
@@ -2203,6 +2274,15 @@ def _apply(case, pid, run, w, op):
         else:
             man = json.loads(w.store.nodes['/scheduled/' + name].data.decode())
             man['priority'] = op[2]
+            if len(op) > 4 and op[4]:
+                p2, k2, lim2, noaff2 = op[4]
+                man.pop('affinity', None)
+                man.pop('affinity_limits', None)
+                if not noaff2:
+                    man['affinity'] = aname(p2, k2, 0).split('#')[0]
+                if lim2:
+                    man['affinity_limits'] = lim2
+                w.stats['manifest-regrouped'] += 1
             w.zput('/scheduled/' + name, man)
             _post_event_node(w, 'apps', [name])
             guarded('event:apps', lambda: w.m.process_events(w.store.children('/events')))
